@@ -32,7 +32,8 @@ CONFIG = {
                    'by bounded lasso enumeration.'
                    ' A fixed block of hostile formulas runs under every hash seed'
                    ' of the run (8 quick / 16 thorough); random cases vary state'
-                   ' and atom names.'),
+                   ' and atom names.'
+                   ' Also (round 6): a mixed-polarity family -- the same eventuality or compound promised in one operand and refuted in the other, both operand orders.'),
     'level_note': ('Trusted base: vmon/refsem.py (product construction), '
                    'vmon/pathsem.py (lasso evaluator) -- they must agree for '
                    'a case to be judged; neutral forms; CPython.'),
